@@ -159,3 +159,37 @@ vr_fail(const char *sig, const char *fmt, ...)
 		abort();
 	_exit(1);
 }
+
+char vr_known_sigs[VR_MAXKNOWN][160];
+int  vr_nknown_sigs;
+
+int
+vr_is_known(const char *sig)
+{
+	for (int i = 0; i < vr_nknown_sigs; i++)
+		if (strcmp(vr_known_sigs[i], sig) == 0)
+			return 1;
+	return 0;
+}
+
+void
+vr_soft_fail(const char *sig, const char *fmt, ...)
+{
+	char    msg[1000];
+	va_list ap;
+	va_start(ap, fmt);
+	vsnprintf(msg, sizeof(msg), fmt, ap);
+	va_end(ap);
+	if (!vr_is_known(sig))
+		vr_fail(sig, "%s", msg);
+	for (int i = 0; i < vr->nknown; i++)
+		if (strcmp(vr->known_sig[i], sig) == 0) {
+			vr->known_cnt[i]++;
+			return;
+		}
+	if (vr->nknown < 8) {
+		snprintf(vr->known_sig[vr->nknown], sizeof(vr->known_sig[0]), "%s", sig);
+		vr->known_cnt[vr->nknown] = 1;
+		vr->nknown++;
+	}
+}
